@@ -27,6 +27,8 @@ META = {
     "assignments is not decided.",
     "level_note": "Trusts str.strip semantics and the CFG. The claim covers the built-in and Shopify tags found in the registries.",
 }
+META["technique"] += '; composite blank flags (every rendered child consulted) and single reader of the suppression switch'
+META["level_text"] += " Also decided (R2 extensions): a composite node's blank flag consults every child block it renders, and only BlockNode reads the suppression switch or branches on a blank flag, so suppression never skips side effects."
 
 WS_CHARS = set(" \t\r\n\f\v")
 
@@ -82,6 +84,33 @@ def run(prog: Program, res: Result) -> None:  # noqa: PLR0912, PLR0915
             else:
                 res.fail("C18.R1", file=trim.file, line=n.lineno, qualname="Environment.trim", construct=n, message="trim() rebinds its text to something other than a strip of it", what=what)
     res.floor("C18.R1", "returns/rebindings in trim", n_ret, 6)
+    # each strip acts on the side its marker stands on, with the character set of its mode
+    n_side = 0
+    for n in ast.walk(trim.node):
+        val = n.value if isinstance(n, (ast.Return, ast.Assign)) else None
+        if not (isinstance(val, ast.Call) and isinstance(val.func, ast.Attribute) and val.func.attr in ("strip", "lstrip", "rstrip")):
+            continue
+        sides: set[str] = set()
+        mode = None
+        for a in trim.module.ancestors(n):
+            if isinstance(a, ast.If) and (any(n is x for b in a.body for x in ast.walk(b))):
+                names = {x.id for x in ast.walk(a.test) if isinstance(x, ast.Name) and x.id in ("left_trim", "right_trim")}
+                sides |= names
+                if mode is None:
+                    mode = next((x.attr for x in ast.walk(a.test) if isinstance(x, ast.Attribute) and x.attr in ("MINUS", "TILDE", "PLUS", "DEFAULT")), None)
+            if a is trim.node:
+                break
+        if not sides:
+            continue
+        n_side += 1
+        want = "strip" if sides == {"left_trim", "right_trim"} else ("lstrip" if sides == {"left_trim"} else "rstrip")
+        arg_ok = (mode == "MINUS" and not val.args) or (mode == "TILDE" and len(val.args) == 1 and isinstance(val.args[0], ast.Constant) and set(val.args[0].value) == {"\r", "\n"}) or mode not in ("MINUS", "TILDE")
+        what = f"`{norm(n, 60)}` strips the side of the marker it is selected by ({'/'.join(sorted(sides))} {mode})"
+        if val.func.attr == want and arg_ok:
+            res.ok("C18.R1", f"{trim.file}:{n.lineno} Environment.trim", what, f"{want}({norm(val.args[0]) if val.args else ''})")
+        else:
+            res.fail("C18.R1", file=trim.file, line=n.lineno, qualname="Environment.trim", construct=f"{norm(n, 60)} under {'/'.join(sorted(sides))} == {mode}", message=f"under a test on {'/'.join(sorted(sides))} ({mode}) trim() applies `{val.func.attr}({norm(val.args[0]) if val.args else ''})`, expected `{want}` with the {mode} character set: the marker trims whitespace on the wrong side of the text (next to markup that carries no marker) or the wrong characters", what=what)
+    res.floor("C18.R1", "side-selected strips in trim", n_side, 6)
     # with no trimming in force (PLUS on both sides) the text is returned unchanged: a `return text` path exists for equal non-MINUS/TILDE modes
     what = "trim(): with equal left/right modes other than MINUS/TILDE the text is returned unchanged"
     txt = norm(trim.node, 5000)
